@@ -60,3 +60,72 @@ def complex_(rng, al, depth=0, maxc=3):
 
 def selector_list(rng, al, maxlen=2):
     return ", ".join(complex_(rng, al) for _ in range(rng.range(1, maxlen)))
+
+
+def _split_complex(text):
+    """split a complex selector (no commas at depth 0) into [compound, comb, compound, ...] at depth 0"""
+    parts, cur, depth = [], "", 0
+    i = 0
+    while i < len(text):
+        c = text[i]
+        if c in "([":
+            depth += 1
+        elif c in ")]":
+            depth -= 1
+        if depth == 0 and c in " >+~":
+            j = i
+            while j < len(text) and text[j] in " >+~":
+                j += 1
+            comb = text[i:j].strip() or " "
+            parts.append(cur)
+            parts.append(comb)
+            cur = ""
+            i = j
+            continue
+        cur += c
+        i += 1
+    parts.append(cur)
+    return [p for p in parts]
+
+
+def related(rng, al, a):
+    """a selector obtained from the complex selector `a` by one structural edit: an extra compound in front / in the
+    middle / at the end, another combinator, an extra or missing simple selector, wrapping in :is(). Pairs (a, related)
+    sit where sub/superselector relations are decided."""
+    if "," in a:
+        a = a.split(",")[0].strip()
+    parts = _split_complex(a)
+    if any(p == "" for p in parts[::2]):
+        return complex_(rng, al)
+    comps, combs = parts[::2], parts[1::2]
+    k = rng.below(8)
+    c = compound(rng, al, 1, False)
+    comb = rng.choice([" ", ">", "+", "~"])
+    if k == 0:
+        comps, combs = [c] + comps, [comb] + combs
+    elif k == 1 and len(comps) >= 2:
+        i = rng.range(1, len(comps) - 1)
+        comps = comps[:i] + [c] + comps[i:]
+        combs = combs[:i - 1] + [combs[i - 1], rng.choice([combs[i - 1], comb])] + combs[i:]
+    elif k == 2:
+        comps, combs = comps + [c], combs + [comb]
+    elif k == 3 and combs:
+        i = rng.below(len(combs))
+        combs[i] = comb
+    elif k == 4:
+        i = rng.below(len(comps))
+        extra = rng.choice([x for x in al if not x.startswith("::") and x not in TYPES] or [".q"])
+        if extra not in comps[i] and "::" not in comps[i]:
+            comps[i] = comps[i] + extra
+    elif k == 5 and len(comps) >= 2:
+        i = rng.below(len(comps))
+        comps = comps[:i] + comps[i + 1:]
+        combs = combs[:max(0, i - 1)] + combs[i:] if i > 0 else combs[1:]
+    elif k == 6:
+        return ":is(%s)" % a if rng.chance(0.5) else "%s, %s" % (a, complex_(rng, al, maxc=2))
+    else:
+        comps = comps[::-1]
+    out = comps[0]
+    for cb, cp in zip(combs, comps[1:]):
+        out += (" " if cb == " " else " %s " % cb) + cp
+    return out
